@@ -413,8 +413,11 @@ def enc_label(rng, s, n):
     if l and s in ('0' * l, '1' * l):
         opts += ['same', 'same']
     if w == 0:
-        opts = ['short']         # n = 0: the library's label reader does load_uint(0), which raises (non-canonical form anyway; C10's business)
+        # n = 0: the length field (#<= 0) has zero width and reads as 0 (library fix 602ccc8); hml_same then still has its value bit
+        opts = ['short', 'long', 'same0']
     o = rng.choice(opts)
+    if o == 'same0':
+        return '11' + rng.choice('01')
     if o == 'short':
         return '0' + '1' * l + '0' + s
     if o == 'long':
